@@ -93,6 +93,11 @@ int sim_mkdir_p(const char *path, uid_t uid, int mode);
 int sim_mkfile(const char *path, const void *data, size_t n, uid_t uid, int mode);   /* synced */
 int sim_mkfifo_(const char *path, uid_t uid, int mode);
 int sim_lookup(const char *abspath);       /* inode or -1 */
+int sim_mkfile_ino(const char *fmt_with_ino_mod_and_ino, int split, const void *data, size_t n, uid_t uid, int mode);  /* name from inode */
+int sim_link_(const char *oldabs, const char *newabs);
+void sim_deliver_signal(simproc *p, int sig);
+extern int (*sim_idle_hook)(void);
+extern void (*sim_sink_hook)(simproc *, int fd);   /* after a write to a sink descriptor */
 simproc *sim_proc(int idx, const char *name, long pid, uid_t uid, const char *cwd);
 int sim_fd_source(simproc *p, int fd, const void *data, size_t n, int chunk);   /* returns source id */
 int sim_fd_sink(simproc *p, int fd);                                           /* returns sink id */
